@@ -237,6 +237,60 @@ def check_axiomatic_properties_file(ctx, pid, allowed):
 
 
 # ------------------------------------------------------------------------------------------------------
+E2E_WRITER = r"""
+import json, sys
+from simulaqron.settings import simulaqron_settings as S
+spec = json.loads(sys.argv[1])
+S.default_settings()
+for k, v in spec:
+    setattr(S, k, v)
+"""
+E2E_NODE = r"""
+import json
+from simulaqron.settings import simulaqron_settings  # noqa
+import simulaqron.virtual_node.quantum as Qm
+class N: name = "n"
+class R: num = 0
+q = Qm.simulatedQubit(N(), R(), simNum=0, num=0)
+print(json.dumps({"noisy": bool(q.noisy), "T1": q.T1}))
+"""
+
+
+def settings_to_noise_e2e(ctx):
+    import json
+    import subprocess
+    import tempfile
+    bad = []
+    cases = [
+        ("store says off, overrides disabled, override file says on", [["_read_user", False], ["noisy_qubits", False]], {"noisy_qubits": True, "t1": 0.01}, False, None),
+        ("store says on with T1 = 0.5, no override file", [["noisy_qubits", True], ["t1", 0.5]], None, True, 0.5),
+        ("store says off, override file says on (overrides enabled)", [["noisy_qubits", False]], {"noisy_qubits": True, "t1": 0.25}, True, 0.25),
+        ("store says on, overrides disabled, override file says off", [["noisy_qubits", True], ["t1", 2.0], ["_read_user", False]], {"noisy_qubits": False}, True, 2.0),
+    ]
+    for what, writes, user, want_noisy, want_t1 in cases:
+        home = tempfile.mkdtemp(prefix="c19e2e-", dir=ctx.home)
+        env = dict(os.environ, PYTHONPATH=ctx.scratch, HOME=home, PYTHONWARNINGS="ignore")
+        store = os.path.join(ctx.scratch, "simulaqron", "config", "settings.json")
+        if os.path.exists(store):
+            os.remove(store)
+        w = subprocess.run([sys.executable, "-c", E2E_WRITER, json.dumps(writes)], env=env, cwd=home, stdout=subprocess.PIPE, stderr=subprocess.PIPE, text=True, timeout=120)
+        if user is not None:
+            with open(os.path.join(home, ".simulaqron.json"), "w") as f:
+                json.dump(user, f)
+        r = subprocess.run([sys.executable, "-c", E2E_NODE], env=env, cwd=home, stdout=subprocess.PIPE, stderr=subprocess.PIPE, text=True, timeout=120)
+        ctx.count("settings_to_noise_end_to_end_cases")
+        ctx.case(("e2e", what), nontrivial=True)
+        if w.returncode != 0 or r.returncode != 0:
+            bad.append("%s: writer / node process failed: %s" % (what, (w.stderr or r.stderr)[-200:]))
+            continue
+        got = json.loads(r.stdout.strip().split("\n")[-1])
+        if got["noisy"] != want_noisy or (want_t1 is not None and got["T1"] != want_t1):
+            bad.append("%s: a qubit created in a process started afterwards has noisy = %r, T1 = %r (expected %r, %r)" % (what, got["noisy"], got["T1"], want_noisy, want_t1))
+    if os.path.exists(os.path.join(ctx.scratch, "simulaqron", "config", "settings.json")):
+        os.remove(os.path.join(ctx.scratch, "simulaqron", "config", "settings.json"))
+    return bad
+
+
 def run(ctx):
     rng = ctx.rng
     thorough = ctx.tier == "thorough"
@@ -483,7 +537,15 @@ def run(ctx):
     ctx.coverage["observation_clock"] = ("informational: t uses the first clock read, last_accessed the second; "
                                          "time passing between the two reads is never counted as idle time")
 
+    # ---- end to end: the setting a launching program wrote decides whether a node process started LATER applies noise (and at which T1) ------
+    e2e_bad = settings_to_noise_e2e(ctx)
+    ctx.obligation("a simulated qubit created in a freshly started process is noisy iff the stored settings (and the override file only while _read_user is on) "
+                   "say so, with the stored T1", not e2e_bad, "; ".join(e2e_bad)[:600])
+
     # ---- verdict ---------------------------------------------------------------------------------------------------
+    if e2e_bad:
+        ctx.report("oracle:settings-to-noise", "noise: " + e2e_bad[0], {"problems": e2e_bad}, True)
+
     def slim(d):
         return {k: d[k] for k in d if k not in ("final",)}
     if oracle_bad:
@@ -492,6 +554,6 @@ def run(ctx):
     elif shape_bad:
         d = min(shape_bad, key=lambda x: (x["n"], len(str(x["tin"]))))
         ctx.report("shape:" + d["entry"], "noise routine call shape violated (not exactly one optional Pauli before the operation)", slim(d), True)
-    elif ctx.broken():
+    elif ctx.broken() and not e2e_bad:
         ctx.report("broken:" + ";".join(ctx.broken()), "proof obligation / correspondence no longer checks: " + "; ".join(ctx.broken()),
                    {"broken": ctx.broken(), "first_disagreement": [slim(f) for f in failing[:1]]}, found_input=False)
